@@ -6,25 +6,11 @@ import GtModel.Proofs.LazyMk
 import GtModel.Proofs.LazyLev
 import GtModel.Proofs.LazyEngine
 import GtModel.Proofs.EditsWalk
+import GtModel.Proofs.EditsOptions
 
 namespace GtModel
 
 /-! ### domain predicates -/
-
-mutual
-/-- no `DictNode` on the from-side: `mkEdit` never builds a MultiSetEdit -/
-def Tree.noDict : Tree → Bool
-  | .leaf _ => true
-  | .list cs => ndL cs
-  | .dict _ => false
-  | .fdict kvs => ndKV kvs
-def ndL : List Tree → Bool
-  | [] => true
-  | c :: cs => c.noDict && ndL cs
-def ndKV : List (Str × Tree) → Bool
-  | [] => true
-  | (_, v) :: rest => v.noDict && ndKV rest
-end
 
 mutual
 /-- number of `null` leaves reachable through lists only -/
@@ -57,16 +43,6 @@ def fkKV : List (Str × Tree) → Bool
   | [] => true
   | (k, v) :: rest => decide (3 * v.nw ≤ 2 * k.length + 5) && v.fkOK && fkKV rest
 end
-
-theorem ndL_iff (cs : List Tree) : ndL cs = true ↔ ∀ c ∈ cs, c.noDict = true := by
-  induction cs with
-  | nil => simp [ndL]
-  | cons c cs ih => simp [ndL, ih]
-
-theorem ndKV_iff (kvs : List (Str × Tree)) : ndKV kvs = true ↔ ∀ kv ∈ kvs, kv.2.noDict = true := by
-  induction kvs with
-  | nil => simp [ndKV]
-  | cons kv kvs ih => obtain ⟨k, v⟩ := kv; simp [ndKV, ih]
 
 theorem fkL_iff (cs : List Tree) : fkL cs = true ↔ ∀ c ∈ cs, c.fkOK = true := by
   induction cs with
